@@ -9,6 +9,7 @@ The transformations rewrite every module of suit_generator/ and ncs/ of a scratc
   locals     every local variable (not parameters, not globals/nonlocals, not names used by nested scopes) gets a new name
   negif      `if c: A else: B` -> `if not c: B else: A`
   reorder    consecutive method / function definitions are put in reverse order
+  logging    a logging.getLogger('trace').debug('enter') statement at the entry of every function
   all        the composition of the above
 --run-tests additionally runs the pinned test suite on the transformed copy (tools/baseline_check.py) to confirm that the
 transformation itself preserved behaviour.
@@ -38,6 +39,28 @@ class TmpRet(ast.NodeTransformer):
             return node
         a = ast.Assign(targets=[ast.Name(id="_result_value", ctx=ast.Store())], value=node.value, lineno=0)
         return [a, ast.Return(value=ast.Name(id="_result_value", ctx=ast.Load()))]
+
+
+class AddLogging(ast.NodeTransformer):
+    """A diagnostic statement at the entry of every function (needs `import logging` in the module)."""
+
+    def _fn(self, node):
+        self.generic_visit(node)
+        i = 1 if (node.body and isinstance(node.body[0], ast.Expr) and isinstance(getattr(node.body[0], "value", None), ast.Constant)
+                  and isinstance(node.body[0].value.value, str)) else 0
+        node.body.insert(i, ast.parse("logging.getLogger('trace').debug('enter')").body[0])
+        return node
+
+    visit_FunctionDef = _fn
+
+    def visit_Module(self, node):
+        self.generic_visit(node)
+        i = 0
+        while i < len(node.body) and ((isinstance(node.body[i], ast.Expr) and isinstance(getattr(node.body[i], "value", None), ast.Constant))
+                                      or (isinstance(node.body[i], ast.ImportFrom) and node.body[i].module == "__future__")):
+            i += 1
+        node.body.insert(i, ast.parse("import logging").body[0])
+        return node
 
 
 class NegIf(ast.NodeTransformer):
@@ -165,8 +188,8 @@ def apply(root: Path, name: str):
         src = p.read_text()
         if name == "fmt":
             out = ast.unparse(ast.parse(src)) + "\n"
-        elif name in ("tmpret", "negif", "reorder"):
-            t = {"tmpret": TmpRet, "negif": NegIf, "reorder": Reorder}[name]().visit(ast.parse(src))
+        elif name in ("tmpret", "negif", "reorder", "logging"):
+            t = {"tmpret": TmpRet, "negif": NegIf, "reorder": Reorder, "logging": AddLogging}[name]().visit(ast.parse(src))
             ast.fix_missing_locations(t)
             out = ast.unparse(t) + "\n"
         elif name == "locals":
@@ -184,7 +207,7 @@ def run_check(prop, repo):
     return prop, pr.returncode, first[:260]
 
 
-def run_for_prop(prop, repo_root="/repo", names=("fmt", "tmpret", "locals", "negif", "reorder", "all")):
+def run_for_prop(prop, repo_root="/repo", names=("fmt", "tmpret", "locals", "negif", "reorder", "logging", "all")):
     """Used by the thorough tier: [(transformation, exit code, first line)] of the property's check on each transformed copy."""
     out = []
 
@@ -197,7 +220,7 @@ def run_for_prop(prop, repo_root="/repo", names=("fmt", "tmpret", "locals", "neg
                     shutil.copytree(src, d / c, ignore=shutil.ignore_patterns("__pycache__", "*.pyc"))
                 elif src.is_file():
                     shutil.copy(src, d / c)
-            for step in (["tmpret", "locals", "negif", "reorder"] if name == "all" else [name]):
+            for step in (["tmpret", "locals", "negif", "reorder", "logging"] if name == "all" else [name]):
                 apply(d, step)
             for p_ in list((d / "suit_generator").rglob("*.py")) + list((d / "ncs").rglob("*.py")):
                 compile(p_.read_text(), str(p_), "exec")
@@ -214,7 +237,7 @@ def run_for_prop(prop, repo_root="/repo", names=("fmt", "tmpret", "locals", "neg
 
 def main():
     ap = argparse.ArgumentParser()
-    ap.add_argument("--transform", default="fmt,tmpret,locals,negif,reorder,all")
+    ap.add_argument("--transform", default="fmt,tmpret,locals,negif,reorder,logging,all")
     ap.add_argument("--props", default="all")
     ap.add_argument("--run-tests", action="store_true")
     ap.add_argument("--keep", action="store_true")
@@ -230,7 +253,7 @@ def main():
                     shutil.copytree(src, d / c, ignore=shutil.ignore_patterns("__pycache__", "*.pyc"))
                 elif src.is_file():
                     shutil.copy(src, d / c)
-            for step in (["tmpret", "locals", "negif", "reorder"] if name == "all" else [name]):
+            for step in (["tmpret", "locals", "negif", "reorder", "logging"] if name == "all" else [name]):
                 apply(d, step)
             r = subprocess.run(["/venv/bin/python", "-m", "compileall", "-q", "suit_generator", "ncs"], cwd=str(d), capture_output=True, text=True)
             if r.returncode != 0:
